@@ -1074,3 +1074,12 @@ Lemma legacy_s3_id_parse_broken :
   (exists out, s3_iter glob_simple ex_fmt same (fun l => l) (fun n => n) [] (store_of (s3_key ex_fmt []) ex_hist)
                  (U"Op") None None 0%Z [] None false = Listed out /\ length out = 3).
 Proof. repeat split; try (vm_compute; reflexivity). eexists. split; vm_compute; reflexivity. Qed.
+
+(** observation (not a defect of the listing property, which is stated for limit None or >= 1):
+    limit = 0 means "no limit" on the in-memory cassette and "nothing" on S3 *)
+Lemma limit_zero_diverges :
+  mem_iter glob_simple (fun l => l) (store_of mem_id ex_hist) (U"Op") [] (Some 0) false
+    = Listed [U"Op/a1"; U"Op/f6"; U"Op/07"] /\
+  s3_iter glob_simple ex_fmt same (fun l => l) (fun n => n) [] (store_of (s3_key ex_fmt []) ex_hist)
+          (U"Op") None None 0%Z [] (Some 0) false = Listed [].
+Proof. split; vm_compute; reflexivity. Qed.
